@@ -685,6 +685,10 @@ class ComplexModelMeta(with_metaclass(Prepareable, type(ModelBase))):
             if self.Attributes._subclasses is eattr._subclasses:
                 self.Attributes._subclasses = None
 
+            # the registry of customized variants belongs to one class: it
+            # must not be inherited from (i.e. shared with) the parent class.
+            self.Attributes._variants = None
+
         # sanitize fields
         for k, v in type_info.items():
             # replace bare SelfRerefence
